@@ -209,12 +209,14 @@ def transmissionsValid (sir : Bool) (shift : Rat) (N : Nat) (succ : Node → Lis
 /-! ### initial conditions (C05) -/
 
 /-- row 0 and per-node statuses at tmin equal the request -/
-def initialOK (N : Nat) (infs recs : List Node) (row0 : List Int) (statusAtTmin : List String) (sir : Bool) : Bool :=
+def initialOK (N : Nat) (infs recs : List Node) (row0 : List Int) (statusAtTmin : Option (List String)) (sir : Bool) : Bool :=
   let i0 : Int := infs.length
   let r0 : Int := recs.length
   (if sir then row0 == [(N : Int) - i0 - r0, i0, r0] else row0 == [(N : Int) - i0, i0])
-  && statusAtTmin.length == N
-  && allIdx N (fun v => statusAtTmin.getD v "" ==
-        (if recs.contains v then "R" else if infs.contains v then "I" else "S"))
+  && (match statusAtTmin with
+      | none => true
+      | some st => st.length == N
+          && allIdx N (fun v => st.getD v "" ==
+              (if recs.contains v then "R" else if infs.contains v then "I" else "S")))
 
 end Pred
